@@ -52,6 +52,9 @@ func genOp(c *Ctx, massive bool) Op {
 	if c.Chance(1, 10) {
 		op.Alias = true
 	}
+	if c.Chance(1, 12) {
+		op.NilOption = true
+	}
 	return op
 }
 
@@ -330,6 +333,9 @@ func caseC10(c *Ctx) {
 		c.st.Count("with-earlier-call")
 		c.Sim("prime", Op{Kind: "output", Massive: true}, &Env{Doc: pdoc, Reader: noReaderFault, Writer: noWriterFault, Cb: noCbFault})
 	}
+	if c.Chance(1, 10) {
+		s.op.NilCtx = true
+	}
 	d2 := s.prepareTarget(c, 2)
 	env := mk(d2)
 	env.Reader = readerPlanFor(c)
@@ -485,6 +491,12 @@ func caseC11(c *Ctx) {
 	c.st.Count("op:" + s.op.Kind)
 	for _, k := range plan.kinds {
 		c.st.Count("fault.configured:" + k)
+	}
+	if len(s.malform) >= 2 {
+		c.st.Count("probe:documents-with->=2-failing-blocks")
+	}
+	if len(s.malform) >= 3 {
+		c.st.Count("probe:documents-with->=3-failing-blocks")
 	}
 
 	simple := s.op
